@@ -36,6 +36,8 @@ def stages(tier, seed, bins):
                 for ds in range(2 if not thorough else 2):
                     N = rnd.choice([20, 30, 45, 70])
                     kind = rnd.choice(["gauss", "swiss", "scurve", "mix"])
+                    if tr == "perm" and ds == 1 and m not in ("mds", "kpca", "pca", "passthru"):
+                        kind = "srcfirst"  # sample 0 is a source of the directed k-NN graph; the permutation moves it elsewhere
                     D = 3 if kind in ("swiss", "scurve") else rnd.choice([3, 4, 6])
                     td = rnd.choice([1, 2, 2, 3])
                     td = min(td, D - 1) if m in ("npe", "lltsa", "lpp") else min(td, D)
@@ -46,6 +48,8 @@ def stages(tier, seed, bins):
                              tseed=rnd.randrange(1 << 30), srand=rnd.randrange(1 << 30), nm=rnd.choice(["brute", "vptree", "covertree"]),
                              em="dense", width=rnd.choice([1.0, 5.0]), timesteps=rnd.choice([1, 3]), offset=rnd.choice([0, 2]),
                              timeout=300, ticks=50000000)
+                    if rnd.random() < 0.5:
+                        c["plabel"] = 1
                     if tr == "perm" and rnd.random() < 0.3:
                         c["reverse"] = 1
                     if tr == "trans":
